@@ -57,6 +57,7 @@ extern "C" int LLVMFuzzerTestOneInput(const uint8_t* data, size_t size) {
   for (auto& sf : h.sufs) {
     if (sf.error_swallowed) bad.push_back("suffix-read-error-swallowed");
     if (sf.offered < 0) bad.push_back("negative-count-offered");
+    if (!(bytes.size() >= 4 && !memcmp(bytes.data(), "\6\0\0\0", 4)) && sf.name.find('\n') != std::string::npos) bad.push_back("suffix-name-contains-a-line-break");   // text: a name is cut out of one line
     if ((long)sf.name.size() > std::max<long>(0, mxn - (binary ? 0 : 1))) bad.push_back("suffix-name-longer-than-stated");
     if ((long)sf.table.size() > std::max<long>(0, mxt)) bad.push_back("suffix-table-longer-than-stated");
   }
